@@ -40,6 +40,7 @@ type v1Witness struct {
 func checkV1Contract(b *harness.B, ctor string, fc types.FileContract, cs consensus.State, target *big.Int, params any) bool {
 	b.Eval(1)
 	b.Count("v1_payouts_checked", 1)
+	b.SetAdd("constructors_exercised", ctor)
 	w := v1Witness{ctor, target.String(), jsonOf(fc), params}
 	valid, missed := sumOutputs(fc.ValidProofOutputs), sumOutputs(fc.MissedProofOutputs)
 	payout := toBig(fc.Payout)
@@ -268,6 +269,26 @@ func (g *v1Gen) renewal3(target *big.Int, cur types.FileContractRevision, endHei
 	}, true, nil
 }
 
+// guarded variants: a panic inside a constructor is a violation of its own, not the end of the batch.
+func (g *v1Gen) formationG(b *harness.B, target *big.Int, endHeight uint64) (vc v1Case, ok bool) {
+	p := b.Guard("C17/v1/rhp2.PrepareContractFormation", func() any { return map[string]any{"target": target.String(), "end_height": endHeight} }, func() { vc = g.formation(target, endHeight) })
+	return vc, !p
+}
+
+func (g *v1Gen) renewal2G(b *harness.B, target *big.Int, cur types.FileContractRevision, endHeight uint64) (vc v1Case, ok bool) {
+	p := b.Guard("C17/v1/rhp2.PrepareContractRenewal", func() any {
+		return map[string]any{"target": target.String(), "end_height": endHeight, "current": jsonOf(cur.FileContract)}
+	}, func() { vc, ok = g.renewal2(target, cur, endHeight) })
+	return vc, ok && !p
+}
+
+func (g *v1Gen) renewal3G(b *harness.B, target *big.Int, cur types.FileContractRevision, endHeight, hostHeight uint64) (vc v1Case, ok bool, err error) {
+	p := b.Guard("C17/v1/rhp3.PrepareContractRenewal", func() any {
+		return map[string]any{"target": target.String(), "end_height": endHeight, "host_height": hostHeight, "current": jsonOf(cur.FileContract)}
+	}, func() { vc, ok, err = g.renewal3(target, cur, endHeight, hostHeight) })
+	return vc, ok && !p, err
+}
+
 // ---------------------------------------------------------------------------
 // v1 consensus submission
 
@@ -395,7 +416,7 @@ func runV1Payouts(b *harness.B) {
 	}
 	b.Count("blocks_validated", 5)
 	g := newV1Gen(r)
-	targets := v1Targets(r, b.Pick(20000, 600000))
+	targets := v1Targets(r, b.Pick(20000, 300000))
 	b.Count("v1_grid_targets", len(targets))
 	submitEvery := b.Pick(12, 40)
 	for i, t := range targets {
@@ -403,16 +424,18 @@ func runV1Payouts(b *harness.B) {
 		endHeight := child + r.Uint64N(500)
 		cls := fmt.Sprint(t.BitLen(), "/", new(big.Int).Mod(t, big.NewInt(10000)).Cmp(new(big.Int).Mod(new(big.Int).Quo(new(big.Int).Mul(t, big.NewInt(1000)), big.NewInt(961)), big.NewInt(10000))))
 		// formation
-		vc := g.formation(t, endHeight)
-		ok := checkV1Contract(b, vc.ctor, vc.fc, c.cs, t, vc.params)
-		b.Distinct("v1", vc.ctor, cls)
-		if ok && i%submitEvery == 0 {
-			submitV1(b, r, c.snapshot(), g, vc, false)
+		vc, built := g.formationG(b, t, endHeight)
+		if built {
+			ok := checkV1Contract(b, vc.ctor, vc.fc, c.cs, t, vc.params)
+			b.Distinct("v1", vc.ctor, cls)
+			if ok && i%submitEvery == 0 {
+				submitV1(b, r, c.snapshot(), g, vc, false)
+			}
 		}
 		// renewals from a current revision
 		cur := g.oldRevision(child + r.Uint64N(200))
 		end2 := max(cur.FileContract.WindowStart, child) + r.Uint64N(300)
-		if vc2, feasible := g.renewal2(t, cur, end2); feasible {
+		if vc2, feasible := g.renewal2G(b, t, cur, end2); feasible {
 			ok := checkV1Contract(b, vc2.ctor, vc2.fc, c.cs, t, vc2.params)
 			b.Distinct("v1", vc2.ctor, cls, cur.FileContract.Filesize > 0, end2+1 > cur.FileContract.WindowEnd)
 			if ok && i%submitEvery == 1 {
@@ -421,7 +444,7 @@ func runV1Payouts(b *harness.B) {
 			b.Count("v1_renewals_checked", 1)
 		}
 		hostHeight := child - 1 - r.Uint64N(min(child-1, 3)+1)
-		if vc3, feasible, err := g.renewal3(t, cur, end2, hostHeight); err != nil {
+		if vc3, feasible, err := g.renewal3G(b, t, cur, end2, hostHeight); err != nil {
 			b.Count("v1_rhp3_renewal_refused", 1)
 			b.SetAdd("validate_rejections", "rhp3 renewal: "+errClass(err))
 		} else if feasible {
@@ -432,7 +455,7 @@ func runV1Payouts(b *harness.B) {
 			}
 			b.Count("v1_renewals_checked", 1)
 		}
-		if i == 0 {
+		if i == 0 && built {
 			b.Sample(map[string]any{"kind": "v1 formation", "target": t.String(), "payout": vc.fc.Payout.ExactString()})
 		}
 	}
@@ -497,7 +520,7 @@ func runV1Chain(b *harness.B) {
 		}
 		b.Count("blocks_validated", 1)
 	}
-	nseq := b.Pick(3000, 60000)
+	nseq := b.Pick(3000, 40000)
 	for q := 0; q < nseq; q++ {
 		c := base.snapshot()
 		g := newV1Gen(r)
@@ -506,8 +529,8 @@ func runV1Chain(b *harness.B) {
 			target.SetInt64(1)
 		}
 		endHeight := c.childHeight() + 2 + r.Uint64N(40)
-		vc := g.formation(target, endHeight)
-		if !checkV1Contract(b, vc.ctor, vc.fc, c.cs, target, vc.params) {
+		vc, built := g.formationG(b, target, endHeight)
+		if !built || !checkV1Contract(b, vc.ctor, vc.fc, c.cs, target, vc.params) {
 			continue
 		}
 		fce, ok := submitV1(b, r, c, g, vc, true)
@@ -648,10 +671,10 @@ func runV1Chain(b *harness.B) {
 		var vc2 v1Case
 		var feasible bool
 		if r.IntN(2) == 0 {
-			vc2, feasible = g.renewal2(t2, rev, end2)
+			vc2, feasible = g.renewal2G(b, t2, rev, end2)
 		} else {
 			var err error
-			vc2, feasible, err = g.renewal3(t2, rev, end2, c.cs.Index.Height)
+			vc2, feasible, err = g.renewal3G(b, t2, rev, end2, c.cs.Index.Height)
 			if err != nil {
 				b.Count("v1_rhp3_renewal_refused", 1)
 			}
